@@ -110,6 +110,18 @@ func TestC04Proc(t *testing.T) {
 				exp = append(exp, beh{name: "started-only " + how, marker: true, maxKillMs: 30000})
 			}
 		}
+		// the application had preset Cmd.Stdin to a reader that stays open and silent (the read end of an io.Pipe)
+		for _, b0 := range []beh{{"exits-at-once", 0, nil, true, 30000}, {"ignores-shutdown", 60000, nil, false, 30000}, {"already-crashed", 0, []string{"sigkillplugin"}, false, 30000}} {
+			ops := append([]string{"new", "start", "client", "dispense", "set:1"}, b0.pre...)
+			ops = append(ops, "kill", "proc?")
+			cells = append(cells, Cell{
+				Name:   fmt.Sprintf("%s launch=cmd plugin=%s, Cmd.Stdin preset to an idle pipe", proto, b0.name),
+				Plugin: PluginConf{CookieKey: cookieKey, CookieValue: cookieVal, Legacy: 1, LegacyProto: proto, GRPCServer: true, TLS: "none", ExitMarker: "auto", ExitDelayMs: b0.delayMs},
+				Host:   HostConf{Allowed: []string{"netrpc", "grpc"}, TLS: "none", Launch: "cmd", Legacy: 1, SkipHostEnv: true, PresetStdin: "idle-pipe"},
+				Ops:    ops,
+			})
+			exp = append(exp, b0)
+		}
 		// never completed the handshake
 		cells = append(cells, Cell{Name: proto + " launch=cmd plugin=silent (start timeout)", Plugin: PluginConf{LegacyProto: proto},
 			Host: HostConf{Allowed: []string{"netrpc", "grpc"}, TLS: "none", Launch: "cmd", Legacy: 1, Script: "exec sleep 30", StartTimeoutMs: 1500},
@@ -210,6 +222,12 @@ func TestC05Proc(t *testing.T) {
 				Host: HostConf{Allowed: []string{"netrpc", "grpc"}, TLS: "none", Launch: launch, Legacy: 1, Script: sc, StartTimeoutMs: 1500, Mux: mux},
 				Ops:  []string{"new", "start", "sleep:1500", "proc?", "kill", "proc?"}})
 		}
+	}
+	// the application had preset Cmd.Stdin to a reader that stays open and silent
+	for _, name := range []string{"bad app version", "silence until timeout", "exit before output", "short line"} {
+		cells = append(cells, Cell{Name: fmt.Sprintf("launch=cmd cause=%s, Cmd.Stdin preset to an idle pipe", name), Plugin: PluginConf{LegacyProto: "netrpc"},
+			Host: HostConf{Allowed: []string{"netrpc", "grpc"}, TLS: "none", Launch: "cmd", Legacy: 1, Script: scripts[name], StartTimeoutMs: 1500, PresetStdin: "idle-pipe"},
+			Ops:  []string{"new", "start", "sleep:1500", "proc?", "kill", "proc?"}})
 	}
 	// start timeouts so short that they have expired before the launch call returns (1 ns, 50 us, 2 ms), against a silent
 	// plugin and against one that prints a valid-looking line at once
